@@ -80,12 +80,19 @@ def run_cases(unit_name, cases, opts, world=None):
                     ob.extra['case'] = case
                     rep.obligations.append(ob); continue
                 nlive += 1
-                for name, goal in case.ensures(q, ret):
+                for ent in case.ensures(q, ret):
+                    name, goal = ent[0], ent[1]
+                    opts = ent[2] if len(ent) > 2 else {}
+                    hy = req + q.pc + list(opts.get('defs', []))
+                    for hi, hnt in enumerate(opts.get('hints', [])):
+                        ob = Obligation(f'{pw}/ensures.{name}.hint{hi}', hy, hnt, 'ensures', where, path=q); ob.extra['case'] = case
+                        rep.obligations.append(ob)
+                    hy = hy + list(opts.get('hints', []))
                     if z3.is_expr(goal) and is_true(simplify(goal)):
                         ob = Obligation(f'{pw}/ensures.{name}', [], BoolVal(True), 'ensures', where, path=q)
                         ob.result = 'proved'; ob.backend = 'simplify'
                     else:
-                        ob = Obligation(f'{pw}/ensures.{name}', req + q.pc, goal, 'ensures', where, path=q)
+                        ob = Obligation(f'{pw}/ensures.{name}', hy, goal, 'ensures', where, path=q)
                     ob.extra['case'] = case
                     rep.obligations.append(ob)
             for ob in eng.obligations:
